@@ -228,6 +228,14 @@ class Scratch:
         self.root = os.path.join(base, "verif-%s-%d" % (tag, os.getpid()))
         shutil.rmtree(self.root, ignore_errors=True)
         os.makedirs(self.root)
+        # scratch roots of checks that were killed: remove what is older than six hours
+        try:
+            for d in os.listdir(base):
+                p = os.path.join(base, d)
+                if d.startswith("verif-") and p != self.root and time.time() - os.path.getmtime(p) > 6 * 3600:
+                    shutil.rmtree(p, ignore_errors=True)
+        except OSError:
+            pass
         self.n = 0
         self.lock = threading.Lock()
 
